@@ -92,6 +92,8 @@ def gen(rng, tier):
             extra = None
     pastify = mode == 'on' and (any(x[0] in sg.FUTURE_OPS for x in sg.walk(ast)) or
                                 (extra and any(x[0] in sg.FUTURE_OPS for x in sg.walk(extra[1]))) or rng.random() < 0.1)
+    if iastl and not common.iastl_safe(ast):
+        iastl = None            # iff / xor or arithmetic over +-inf predicates: inf - inf, outside the numeric envelope
     sc = {'iastl': iastl, 'kind': kind, 'mode': mode, 'vars': vars_, 'ast': ast, 'defs': defs, 'top': top, 'extra': extra, 'pastify': bool(pastify),
           'declare': rng.random() < 0.5, 'via': rng.choice(['add_sub_spec', 'text']), 'spell_seed': rng.randrange(1 << 30)}
     if dense:
@@ -178,6 +180,9 @@ def eq_samples(a, b):
 
 def run(sc):
     r = Result()
+    if sc.get('iastl') and not common.iastl_safe(sc['ast']):
+        r.discarded = True      # inf - inf under an interface-aware semantics: outside the numeric envelope (DESIGN 3.6)
+        return r
     r.faults.update(sc.get('fired') or {})
     r.interleavings.add('%s|%s|%s' % (sc.get('kind'), sc.get('mode', ''), sc.get('nbatches') or sc.get('n')))
     if sc.get('nbatches', 1) > 1:
